@@ -318,6 +318,9 @@ def poisson_patch(bottom, right, top, left):
     if left.rational or right.rational or top.rational or bottom.rational:
         raise RuntimeError('poisson_patch not supported for rational splines')
 
+    # don't mess with the input curves
+    bottom, right, top, left = bottom.clone(), right.clone(), top.clone(), left.clone()
+
     # these are given as a oriented loop, so make all run in positive parametric direction
     top.reverse()
     left.reverse()
@@ -380,6 +383,9 @@ def elasticity_patch(bottom, right, top, left):
         raise RuntimeError('elasticity_patch only supported for planar (2D) geometries')
     if left.rational or right.rational or top.rational or bottom.rational:
         raise RuntimeError('elasticity_patch not supported for rational splines')
+
+    # don't mess with the input curves
+    bottom, right, top, left = bottom.clone(), right.clone(), top.clone(), left.clone()
 
     # these are given as a oriented loop, so make all run in positive parametric direction
     top.reverse()
@@ -450,6 +456,9 @@ def finitestrain_patch(bottom, right, top, left):
         raise RuntimeError('finitestrain_patch only supported for planar (2D) geometries')
     if left.rational or right.rational or top.rational or bottom.rational:
         raise RuntimeError('finitestrain_patch not supported for rational splines')
+
+    # don't mess with the input curves
+    bottom, right, top, left = bottom.clone(), right.clone(), top.clone(), left.clone()
 
     # these are given as a oriented loop, so make all run in positive parametric direction
     top.reverse()
